@@ -407,6 +407,15 @@ class Check:
         if fam.cases and len(self.cov["samples"]) < 12:
             k = self.rng.randrange(len(fam.cases))
             self.cov["samples"].append({"family": fam.name, "case": fam.cases[k][:400], "impl": impl[k][:400]})
+        # failures with a concrete failing input (crash / spec oracle / model None) are reported before bare disagreements
+        bad.sort(key=lambda x: 0 if x[1][0] in ("crash", "oracle", "model-none") else 1)
+        # a bare disagreement in a non-decisive family: search the neighbourhood of the differing cases for an input on which the
+        # property itself (the spec oracle on the implementation) fails
+        if bad and bad[0][1][0] == "diff" and not fam.decisive and fam.oracle and fam.engine == "ses":
+            found = self.search_near(fam, [fam.cases[i] for i, _ in bad[:6]], hb)
+            if found:
+                fam.cases.append(found[0])
+                bad.insert(0, (len(fam.cases) - 1, ("oracle", found[1])))
         # report at most 3 distinct failures per family, each shrunk
         seen = 0
         for i, (kind, text) in bad:
@@ -427,6 +436,46 @@ class Check:
                 continue
             path = self.write_replay(fam.name, obj)
             self.violations.append((kind, text, path, not decisive))
+
+    def search_near(self, fam, cases, hb, tries=1200):
+        """mutate differing session cases (insert / duplicate / replace ops) and look for one on which the spec oracle fails"""
+        vocab = ["b:1b5b44", "b:1b5b44", "b:1b5b43", "b:08", "b:1b5b41", "b:1b5b42", "b:09", "b:0d", "b:20", "b:78", "b:c3a9", "w:s6869", "p:2"]
+        muts = []
+        for _ in range(tries):
+            c = self.rng.choice(cases)
+            parts = c.split(" ", 4)
+            if len(parts) < 5:
+                continue
+            ops = parts[4].split(";")
+            for _ in range(self.rng.randrange(1, 4)):
+                k = self.rng.randrange(4)
+                pos = self.rng.randrange(len(ops) + 1)
+                if k == 0:
+                    ops.insert(pos, self.rng.choice(vocab))
+                elif k == 1 and ops:
+                    ops.insert(pos, self.rng.choice(ops))
+                elif k == 2 and len(ops) > 1:
+                    del ops[min(pos, len(ops) - 1)]
+                else:
+                    ops.insert(pos, self.rng.choice(vocab))
+                    ops.insert(min(pos + 1, len(ops)), self.rng.choice(vocab))
+            muts.append(" ".join(parts[:4] + [";".join(ops)]))
+        muts = list(dict.fromkeys(muts))
+        try:
+            outs = run_engine(hb, fam.engine, muts)
+        except Broken:
+            return None
+        self.cov["search_mutants"] = self.cov.get("search_mutants", 0) + len(muts)
+        for c, io in zip(muts, outs):
+            if io.startswith("ABORT") or io.startswith("PANIC"):
+                continue
+            try:
+                r = fam.oracle(c, io)
+            except Exception:
+                r = None
+            if r:
+                return c, r + " (found by searching near a model/implementation disagreement)"
+        return None
 
     def _fails(self, fam, case, kind, hb, drv):
         io = run_engine(hb, fam.engine, [case])[0]
